@@ -9,6 +9,7 @@ import (
 	"github.com/orda-io/orda/client/pkg/types"
 	"github.com/orda-io/orda/client/pkg/utils"
 	"reflect"
+	"sort"
 	"strconv"
 	"strings"
 )
@@ -416,10 +417,12 @@ func (its *jsonPrimitive) createJSONObject(parent jsonType, value interface{}, t
 	fields := reflect.TypeOf(value)
 
 	if target.Kind() == reflect.Map {
-		mapValue := value.(map[string]interface{})
-		for k, v := range mapValue {
-			val := reflect.ValueOf(v)
-			its.addValueToJSONObject(jo, k, val, ts)
+		// visit the keys in sorted order: the identifiers of nested values are assigned along this
+		// traversal and have to be the same on every replica (Go randomizes map iteration).
+		keys := target.MapKeys()
+		sort.Slice(keys, func(i, j int) bool { return keys[i].String() < keys[j].String() })
+		for _, k := range keys {
+			its.addValueToJSONObject(jo, k.String(), target.MapIndex(k), ts)
 		}
 	} else { // reflect.Struct
 		for i := 0; i < target.NumField(); i++ {
